@@ -1,7 +1,6 @@
-import os
 #!/usr/bin/env python3
 """Validate MANIFEST.json and evidence files against the task schemas (uses the tooling venv: python3-vt)."""
-import glob, json, sys
+import glob, json, os, sys
 import jsonschema
 HERE = os.path.dirname(os.path.abspath(__file__))
 m = json.load(open(HERE + '/MANIFEST.json'))
